@@ -270,7 +270,8 @@ where
     // The prover opens `ctl_zs_first` exactly for STARKs taking part in cross-table lookups.
     ensure!(ctl_zs_first.is_some() == stark.requires_ctls());
     ensure!(if let Some(quotient_polys) = quotient_polys {
-        quotient_polys.len() == stark.num_quotient_polys(config)
+        stark.num_quotient_polys(config) > 0
+            && quotient_polys.len() == stark.num_quotient_polys(config)
     } else {
         stark.num_quotient_polys(config) == 0
     });
